@@ -459,10 +459,33 @@ impl SimFs {
         self.fds.get(&fd).copied().ok_or(libc::EBADF)
     }
 
+    /// errno of a path that does not resolve: ENOTDIR if some ancestor exists and is not a
+    /// directory (as the kernel reports it), else ENOENT.
+    fn missing_errno(&self, path: &str) -> i32 {
+        let mut p = parent_of(path);
+        loop {
+            if let Some(ino) = self.disk.lookup(p) {
+                return if self.disk.inodes[&ino].is_dir { libc::ENOENT } else { libc::ENOTDIR };
+            }
+            let q = parent_of(p);
+            if q == p || p.is_empty() {
+                return libc::ENOENT;
+            }
+            p = q;
+        }
+    }
+
+    fn resolve(&self, path: &str) -> R<u64> {
+        match self.disk.lookup(path) {
+            Some(ino) => Ok(ino),
+            None => Err(self.missing_errno(path)),
+        }
+    }
+
     fn check_parent(&self, path: &str) -> R<()> {
         let parent = parent_of(path);
         match self.disk.lookup(parent) {
-            None => Err(libc::ENOENT),
+            None => Err(self.missing_errno(parent)),
             Some(ino) => {
                 if self.disk.inodes[&ino].is_dir {
                     Ok(())
@@ -696,16 +719,7 @@ impl SimFs {
         self.ops_total += 1;
         match self.disk.lookup(path) {
             Some(ino) => self.stat_ino(ino),
-            None => {
-                // ENOTDIR if a prefix is a regular file
-                let parent = parent_of(path);
-                if let Some(pino) = self.disk.lookup(parent) {
-                    if !self.disk.inodes[&pino].is_dir {
-                        return Err(libc::ENOTDIR);
-                    }
-                }
-                Err(libc::ENOENT)
-            }
+            None => Err(self.missing_errno(path)),
         }
     }
 
@@ -725,7 +739,7 @@ impl SimFs {
 
     pub fn rmdir(&mut self, path: &str) -> R<()> {
         self.ops_total += 1;
-        let ino = self.disk.lookup(path).ok_or(libc::ENOENT)?;
+        let ino = self.resolve(path)?;
         if !self.disk.inodes[&ino].is_dir {
             return Err(libc::ENOTDIR);
         }
@@ -739,7 +753,7 @@ impl SimFs {
 
     pub fn unlink(&mut self, path: &str) -> R<()> {
         self.ops_total += 1;
-        let ino = self.disk.lookup(path).ok_or(libc::ENOENT)?;
+        let ino = self.resolve(path)?;
         if self.disk.inodes[&ino].is_dir {
             return Err(libc::EISDIR);
         }
@@ -749,8 +763,16 @@ impl SimFs {
 
     pub fn rename(&mut self, from: &str, to: &str, noreplace: bool) -> R<()> {
         self.ops_total += 1;
-        let ino = self.disk.lookup(from).ok_or(libc::ENOENT)?;
+        // the kernel walks both parent paths before it looks the last components up
+        self.check_parent(from)?;
         self.check_parent(to)?;
+        let ino = self.resolve(from)?;
+        if to.starts_with(&format!("{}/", from)) {
+            return Err(libc::EINVAL);
+        }
+        if from.starts_with(&format!("{}/", to)) {
+            return Err(libc::ENOTEMPTY);
+        }
         if let Some(e) = self.faults.rename_errno {
             self.fire("rename_error");
             return Err(e);
@@ -777,13 +799,13 @@ impl SimFs {
 
     pub fn link(&mut self, from: &str, to: &str) -> R<()> {
         self.ops_total += 1;
-        let ino = self.disk.lookup(from).ok_or(libc::ENOENT)?;
-        if self.disk.inodes[&ino].is_dir {
-            return Err(libc::EPERM);
-        }
+        let ino = self.resolve(from)?;
         self.check_parent(to)?;
         if self.disk.lookup(to).is_some() {
             return Err(libc::EEXIST);
+        }
+        if self.disk.inodes[&ino].is_dir {
+            return Err(libc::EPERM);
         }
         self.record(Op::Link { from: from.to_string(), to: to.to_string() });
         Ok(())
@@ -791,7 +813,7 @@ impl SimFs {
 
     pub fn chmod(&mut self, path: &str, mode: u32) -> R<()> {
         self.ops_total += 1;
-        let ino = self.disk.lookup(path).ok_or(libc::ENOENT)?;
+        let ino = self.resolve(path)?;
         if self.disk.inodes[&ino].mode != mode & 0o7777 {
             self.record(Op::Chmod { ino, mode: mode & 0o7777 });
         }
@@ -824,7 +846,7 @@ impl SimFs {
 
     pub fn truncate(&mut self, path: &str, len: u64) -> R<()> {
         self.ops_total += 1;
-        let ino = self.disk.lookup(path).ok_or(libc::ENOENT)?;
+        let ino = self.resolve(path)?;
         if self.disk.inodes[&ino].is_dir {
             return Err(libc::EISDIR);
         }
@@ -846,6 +868,6 @@ impl SimFs {
 
     pub fn access(&mut self, path: &str) -> R<()> {
         self.ops_total += 1;
-        self.disk.lookup(path).map(|_| ()).ok_or(libc::ENOENT)
+        self.resolve(path).map(|_| ())
     }
 }
